@@ -2,7 +2,8 @@
 # Core/PlanLeaf — score-leaf allocation of the query planner and the per-segment
 `term_weights` loop (`searchlite-core/src/query/planner.rs`: `QueryPlanBuilder::build_node`,
 `build_query_plan`; `api/reader.rs`: `expand_term_groups`, `expand_term_for_group`, the
-`term_weights` loop of `search_segment` with its `debug_assert_eq!`; `query/wand.rs`: the
+`term_weights` loop of `search_segment` (keyed by (key, leaf) since 458e503; the original
+loop with its `debug_assert_eq!` is kept as `legacyTermWeights`); `query/wand.rs`: the
 `assert!(term.leaf < buf.len())` of `brute_force` / `wand_loop`).  Import-free, executable.
 
 Only what decides *leaf indices* is modelled: which nodes allocate a leaf, which leaf a term
@@ -224,15 +225,23 @@ def lookup {K : Type} [DecidableEq K] (k : K) : List (K × Nat) → Option Nat
   | [] => none
   | (k', l) :: r => if k' = k then some l else lookup k r
 
-/-- the `term_weights` loop of `search_segment`: `entry(key).or_insert(.., leaf)` followed by
-`debug_assert_eq!(entry.leaf, term.leaf)`.  `none` = the assertion fails (panic with debug
-assertions on). -/
-def termWeights {K : Type} [DecidableEq K] : List (K × Nat) → List (K × Nat) → Option (List (K × Nat))
+/-- the ORIGINAL `term_weights` loop of `search_segment` (before /repo commit 458e503):
+`entry(key).or_insert(.., leaf)` followed by `debug_assert_eq!(entry.leaf, term.leaf)`.
+`none` = the assertion fails (panic with debug assertions on).  Kept as the mechanism model of
+the original defect. -/
+def legacyTermWeights {K : Type} [DecidableEq K] : List (K × Nat) → List (K × Nat) → Option (List (K × Nat))
   | m, [] => some m
   | m, (k, l) :: r =>
     match lookup k m with
-    | none => termWeights (m ++ [(k, l)]) r
-    | some l' => if l' = l then termWeights m r else none
+    | none => legacyTermWeights (m ++ [(k, l)]) r
+    | some l' => if l' = l then legacyTermWeights m r else none
+
+/-- the `term_weights` loop as it is now: the map is keyed by `(term key, leaf)`, there is no
+assertion; the result lists the `(key, leaf)` of the `ScoredTerm`s (first-occurrence order;
+the code's order is the hash map's) -/
+def termWeights {K : Type} [DecidableEq K] : List (K × Nat) → List (K × Nat) → List (K × Nat)
+  | m, [] => m
+  | m, q :: r => if m.contains q then termWeights m r else termWeights (m ++ [q]) r
 
 /-- one term key ↦ one leaf -/
 def functional {K : Type} [DecidableEq K] (qts : List (K × Nat)) : Bool :=
@@ -256,17 +265,25 @@ def slots {κ K : Type} (keysOf : κ → κ → Exp → List K) (groups : List (
 def slotsDisjoint {K : Type} [DecidableEq K] (sl : List (Nat × List K)) : Bool :=
   sl.all fun a => sl.all fun b => a.1 == b.1 || a.2.all fun k => !b.2.contains k
 
-/-- what the two assertions do on one segment for a request (`qts` non-empty ⇒ the loop runs) -/
+/-- what the assertions of the scoring path do on one segment for a request (`qts` non-empty
+⇒ the loop runs).  `inconsistentLeaf` can only come out of the legacy loop. -/
 inductive Verdict where
   | fine
   | inconsistentLeaf
   | leafOutOfRange
 deriving Repr, DecidableEq
 
-def segmentVerdict {κ K : Type} [DecidableEq K] (keysOf : κ → κ → Exp → List K) (p : Plan κ) : Verdict :=
+/-- the original code: the `debug_assert_eq!` of the loop, then the `assert!` of wand -/
+def legacySegmentVerdict {κ K : Type} [DecidableEq K] (keysOf : κ → κ → Exp → List K) (p : Plan κ) : Verdict :=
   let qts := qualified keysOf p.groups
-  match termWeights [] qts with
+  match legacyTermWeights [] qts with
   | none => .inconsistentLeaf
   | some _ => if leavesInRange p.scorer p.leafCount qts then .fine else .leafOutOfRange
+
+/-- the code as it is now: only the `assert!` of `brute_force` / `wand_loop` is left, checked
+on the scored terms the loop produces -/
+def segmentVerdict {κ K : Type} [DecidableEq K] (keysOf : κ → κ → Exp → List K) (p : Plan κ) : Verdict :=
+  let scored := termWeights [] (qualified keysOf p.groups)
+  if leavesInRange p.scorer p.leafCount scored then .fine else .leafOutOfRange
 
 end SL.PlanLeaf
